@@ -170,6 +170,9 @@ public:
     // the consumer will switch to the newer queue after emptying and deallocating the older queue
     auto const next_node = new Node{capacity, _producer->bounded_queue.huge_pages_policy()};
 
+    // commit previous write to the old queue before switching
+    _producer->bounded_queue.commit_write();
+
     // store the new node pointer as next in the current node
     _producer->next.store(next_node, std::memory_order_release);
 
